@@ -16,6 +16,7 @@ from .. import core, build, parsecmp as pc
 from ..gen import xsdgen as xg
 
 PID = 'C08'
+PSVI_VALIDITY_OBS = collections.Counter()
 BATCH = 240
 
 CONFIGS = [(cmd, api, sc, full) for cmd in ('parse', 'psvi') for api in ('sax2', 'dom') for sc in ('IG', 'SG') for full in (0, 1)]
@@ -124,7 +125,7 @@ def compare_tree(exp, obs, mode, diffs, path='r'):
                         elif o != (tns, tname, False, cat):
                             diffs.append(('type-name', path, ty, o))
                     if obs.pe[4] != '2':
-                        diffs.append(('psvi-validity-not-valid', path, obs.pe[4]))
+                        PSVI_VALIDITY_OBS[obs.pe[4]] += 1       # observation only (not part of the property's observables)
     if len(kids) != len(obs.kids):
         diffs.append(('structure', path))
         return
@@ -454,8 +455,8 @@ def _work(args):
 # ---------------------------------------------------------------------------------------------------------------------
 #  naming a disagreement: shrink the instance, then key = direction + violated rules + explanatory feature tags
 # ---------------------------------------------------------------------------------------------------------------------
-EXPLAIN = ('nil', 'skip:', 'lax:', 'cdata', 'charref', 'ws-only', 'ws-in-empty', 'comment-in', 'xsi-type', 'cm:', 'wildcard-', 'substitution-member',
-           'prohibited-attribute-present', 'attribute-wildcard', 'element-default-applied', 'element-fixed-applied', 'mixed-text', 'value-with-whitespace')
+EXPLAIN = ('nil', 'skip:', 'lax:', 'cdata', 'charref', 'ws-only', 'ws-in-empty', 'comment-in', 'xsi-type', 'cm:', 'wildcard-', 'substitution-member', 'overlapping-wildcards',
+           'prohibited-attribute-present', 'attribute-wildcard', 'element-default', 'element-fixed', 'mixed-text', 'value-with-whitespace')
 
 
 def explain(feats):
@@ -472,6 +473,7 @@ def reductions(root, bld, schema):
     for ei in range(n):
         e0 = xg.all_elements(root)[ei]
         ops = [('kid', i) for i in range(len(e0.kids))] + [('att', i) for i in range(len(e0.attrs))]
+        ops += [('plain', i) for i, k in enumerate(e0.kids) if isinstance(k, tuple) and k[0] in ('cd', 'cr')]
         if e0.xtype is not None:
             ops.append(('xtype', 0))
         if e0.nil is not None:
@@ -483,6 +485,8 @@ def reductions(root, bld, schema):
             e = xg.all_elements(c)[ei]
             if op == 'kid':
                 e.kids.pop(i)
+            elif op == 'plain':
+                e.kids[i] = e.kids[i][1] if e.kids[i][0] == 'cd' else chr(e.kids[i][1])
             elif op == 'att':
                 e.attrs.pop(i)
             elif op == 'xtype':
@@ -497,6 +501,22 @@ def reductions(root, bld, schema):
             out.append(c)
     out.sort(key=lambda c: len(xg.ser(c)))
     return out
+
+
+def step_classes(step, nlines=None):
+    """verdict class per line of a batch: ({line: 'E'}, fatal line or None, codes per line, positions per line)"""
+    bad = collections.defaultdict(list)
+    pos = collections.defaultdict(list)
+    fatal = None
+    for e in step.errs:
+        if e[0] == 'F' and fatal is None:
+            fatal = e[3]
+            bad[e[3]].append('%s%d' % (e[1], e[2]))
+            pos[e[3]].append((e[3], e[4]))
+        elif e[0] == 'E':
+            bad[e[3]].append('%s%d' % (e[1], e[2]))
+            pos[e[3]].append((e[3], e[4]))
+    return bad, fatal, pos
 
 
 class Shrinker:
@@ -514,7 +534,7 @@ class Shrinker:
         return self.cache[si]
 
     def run(self, items):
-        """items: list of dict(si, idx, cfg, obs_valid, docs, tns) -> list of (final El, Result) in the same order"""
+        """items: list of dict(si, idx, cfg, obs ('V'|'E'|'F'), docs, tns, codes, pos) -> list of (El, Result, codes, shrunk?, positions)"""
         state = []
         for it in items:
             s, bld, val, out = self.schema(it['si'])
@@ -551,17 +571,22 @@ class Shrinker:
             for cid, k, cands in plan:
                 st = state[k]
                 rec = recs.get(cid)
-                if rec is None or not rec.complete or rec.crash or rec.hang:
+                if rec is None or not rec.complete or rec.crash or rec.hang or not rec.steps():
                     st['active'] = False
                     continue
                 step = pc.parse_step(rec.steps()[0])
-                if step.status != 'ok' or step.fatal():
+                if step.status != 'ok':
                     st['active'] = False
                     continue
-                bad = set(e[3] for e in step.errs if e[0] == 'E')
+                bad, fatal, _ = step_classes(step)
+                want = st['it']['obs']
                 hit = None
                 for pos, (c, r) in enumerate(cands):
-                    if ((pos + 2) not in bad) == st['it']['obs_valid']:
+                    line = pos + 2
+                    if fatal is not None and line > fatal:
+                        break
+                    cls = 'F' if line == fatal else 'E' if line in bad else 'V'
+                    if cls == want:
                         hit = (c, r)
                         break
                 if hit is None:
@@ -579,24 +604,63 @@ class Shrinker:
         for k, st in enumerate(state):
             rec = recs.get('shc%d' % k)
             ok = False
-            codes = []
-            if rec is not None and rec.complete and not rec.crash and not rec.hang:
+            codes, pos = [], []
+            if rec is not None and rec.complete and not rec.crash and not rec.hang and rec.steps():
                 step = pc.parse_step(rec.steps()[0])
-                codes = sorted(set('%s%d' % (e[1], e[2]) for e in step.errs if e[0] == 'E'))
-                ok = step.status == 'ok' and not step.fatal() and (not codes) == st['it']['obs_valid']
+                bad, fatal, posd = step_classes(step)
+                codes = sorted(set(x for v in bad.values() for x in v))
+                pos = [x for v in posd.values() for x in v]
+                cls = 'F' if (fatal is not None or step.status != 'ok') else 'E' if bad else 'V'
+                ok = cls == st['it']['obs']
             if not ok:
                 s, bld, val, o = self.schema(st['it']['si'])
                 st['el'], st['res'] = o[st['it']['idx']][2], o[st['it']['idx']][3]
-                codes = st['it'].get('codes', [])
-            out.append((st['el'], st['res'], codes, ok))
+                codes, pos = st['it'].get('codes', []), st['it'].get('pos', [])
+            out.append((st['el'], st['res'], codes, ok, pos))
         return out
 
 
-def disagreement_key(direction, res, codes):
-    ex = explain(res.feats)
-    if direction == 'accepted-invalid':
-        return 'C08:accepted-invalid:%s%s' % ('+'.join(sorted(set(res.errors))), ':' + ex if ex else '')
-    return 'C08:rejected-valid:%s:%s' % (ex or 'plain', '+'.join(codes[:2]) or 'error')
+def all_nodes(node, out=None):
+    if out is None:
+        out = []
+    out.append(node)
+    for k in node.kids:
+        all_nodes(k, out)
+    return out
+
+
+def disagreement_key(obs, el, res, codes, positions, tns):
+    """name a confirmed disagreement by the element it concerns.  Reference says invalid: the elements at which the
+    reference raised a rule; reference says valid: the innermost elements containing the positions of the parser's errors
+    (whole-instance tags of the shrunk witness when the position carries none)"""
+    nodes = all_nodes(res.root) if res.root is not None else []
+    if not res.valid:
+        feats = set()
+        for n in nodes:
+            if n.rules:
+                feats |= n.feats
+        ex = explain(feats)
+        return 'C08:%s:%s%s' % ('accepted-invalid' if obs == 'V' else 'fatal', '+'.join(sorted(set(res.errors))), ':' + ex if ex else '')
+    spans = {}
+    xg.ser(el, spans=spans, insert=ns_decl_text(tns))
+    feats = set()
+    cms = set()
+    for (line, col) in positions:
+        off = col - 1
+        best = None
+        for n in nodes:
+            sp = spans.get(id(n.el))
+            if sp and sp[0] < off <= sp[1] and (best is None or sp[1] - sp[0] < best[0]):
+                best = (sp[1] - sp[0], n)
+        if best is not None:
+            feats |= best[1].feats
+            if best[1].ctype is not None and not best[1].ctype.simple and best[1].ctype.content == 'elements':
+                cms.add('cm:' + xg.cm_class(best[1].ctype))
+    head = 'C08:rejected-valid' if obs == 'E' else 'C08:fatal:valid'
+    ex = explain(feats) or explain(res.feats)
+    if ex:
+        return '%s:%s' % (head, ex)
+    return '%s:%s:%s' % (head, '+'.join(sorted(cms)) or 'plain', codes[0] if codes else 'error')
 
 
 def mk_case(cid, cfg, ents, data, dump=1):
@@ -625,7 +689,7 @@ def stage_generated(ck, binary, tier, nproc, cov):
                 tags.update(w['tags'])
                 shapes.add(w['shape'])
                 stats['oracle_selfcheck_sequences'] += w['selfcheck']
-                ents = [('file:///xv/' + n, d) for n, d in w['docs']]
+                w['ents'] = [('file:///xv/' + n, d) for n, d in w['docs']]
                 inst = w['instances']
                 r = core.rng(ck.seed, PID, 'cfg', w['si'])
                 usable = [i for i, x in enumerate(inst) if not any(ru.startswith('unsupported:') for ru in x[3])]
@@ -639,128 +703,138 @@ def stage_generated(ck, binary, tier, nproc, cov):
                     base = order[k % len(order)]
                     k += 1
                     # both scanners for every batch; API / full checking / command rotate; the second run is verdict-only
-                    for n, sc in enumerate(('IG', 'SG')):
-                        cfg = (base[0], base[1], sc, base[3] if sc == 'IG' else 1 - base[3]) if base[2] == 'IG' else (base[0], base[1], ('SG', 'IG')[n], base[3] if n == 0 else 1 - base[3])
+                    for n in range(2):
+                        sc = base[2] if n == 0 else ('SG' if base[2] == 'IG' else 'IG')
+                        cfg = (base[0], base[1], sc, base[3] if n == 0 else 1 - base[3])
                         cid = 's%d.b%d.%s' % (w['si'], b0, '.'.join(map(str, cfg)))
-                        cases.append(mk_case(cid, cfg, ents, data, dump=1 if n == 0 else 0))
+                        cases.append(mk_case(cid, cfg, w['ents'], data, dump=1 if n == 0 else 0))
                         meta[cid] = (w, idx, False, cfg)
                 for i in r.sample(usable, min(len(usable), 16 if tier == 'quick' else 40)):
                     cfg = r.choice(CONFIGS)
                     cid = 's%d.i%d.%s' % (w['si'], i, '.'.join(map(str, cfg)))
-                    cases.append(mk_case(cid, cfg, ents, wrap_single(w['tns'], inst[i][2])))
+                    cases.append(mk_case(cid, cfg, w['ents'], wrap_single(w['tns'], inst[i][2])))
                     meta[cid] = (w, [i], True, cfg)
-            recs = core.run_cases(binary, cases, tag='c08', shards=nproc)
-            recheck = []
-            confirmed = []      # (w, i, cfg, obs_valid, codes)
-            for c in cases:
-                w, idx, single, cfg = meta[c.id]
-                rec = recs.get(c.id)
-                if rec is None or not rec.complete or rec.crash or rec.hang:
-                    if rec is not None:
-                        ck.crash_violation(rec, c, 'C08:')
-                    continue
-                st = pc.parse_step(rec.steps()[0])
-                cfg_seen['%s/%s/%s/full=%s' % cfg] += 1
-                if st.status != 'ok' or st.fatal():
-                    ck.violation('C08:fatal:%s' % ('single' if single else 'batch'), 'fatal error / exception on a well-formed instance of a valid schema (%s)' % st.verdict(),
-                                 {'case': c.to_json(), 'errs': st.errs[:4], 'exc': st.exc})
-                    continue
-                badlines = collections.defaultdict(list)
-                schema_err = [e for e in st.errs if e[0] == 'E' and not (e[5] or '').endswith('doc.xml')]
-                for e in st.errs:
-                    if e[0] == 'E':
-                        badlines[e[3]].append('%s%d' % (e[1], e[2]))
-                        codes['%s:%d' % (e[1], e[2])] += 1
-                if schema_err:
-                    ck.violation('C08:rejected-valid-schema:%s:code%d%s' % (schema_err[0][1], schema_err[0][2], ':full' if cfg[3] else ''),
-                                 'a generated (valid, UPA-clean) schema was reported as erroneous', {'case': c.to_json(), 'errs': schema_err[:4], 'tags': w['tags']})
-                    continue
-                if not single and (1 in badlines or (len(idx) + 2) in badlines):
-                    ck.violation('C08:wrapper-error', 'error reported on the wrapper element of a batch', {'case': c.to_json(), 'errs': st.errs[:4]})
-                    continue
-                trees = None
-                for pos, i in enumerate(idx):
-                    f_, label, xml, rules, tree, feats = w['instances'][i]
-                    line = 1 if single else pos + 2
-                    obs_valid = line not in badlines
-                    exp_valid = not rules
-                    ck.evaluations += 1
-                    if obs_valid != exp_valid:
-                        (confirmed if single else recheck).append((w, i, cfg, obs_valid, sorted(set(badlines.get(line, [])))))
-                        continue
-                    fam[f_ + ('_valid' if exp_valid else '_invalid')] += 1
-                    for ru in rules:
-                        rules_seen[ru] += 1
-                    ck.add_distinct(core.h(w['si'], xml))
-                    if exp_valid and tree is not None and c.opt.get('dump', 1) != 0:
-                        if trees is None:
-                            tl = observed_trees(rec.steps()[0])
-                            trees = tl[0].kids if (not single and tl) else tl
-                        if pos >= len(trees):
-                            ck.violation('C08:report:structure', 'reported element structure differs from the instance', {'case': c.to_json()})
-                            continue
-                        mode = 'psvi' if (cfg[0] == 'psvi' and cfg[1] == 'sax2') else 'dom' if cfg[0] == 'psvi' else 'sax'
-                        diffs = []
-                        compare_tree(tree, trees[pos], mode, diffs)
-                        stats['report_compared_' + mode] += 1
-                        if diffs:
-                            d = diffs[0]
-                            ck.violation('C08:report:%s:%s:%s' % (d[0], mode, explain(feats) or 'plain'), 'valid instance: reported %s differs from the governing declaration: %r' % (d[0], d[1:]),
-                                         {'case': c.to_json(), 'instance': xml, 'schema': w['docs'][0][1].decode(), 'diffs': [list(map(str, x)) for x in diffs[:5]], 'tags': w['tags']})
-                        elif sampled[0] < 3 and f_ == 'tree':
-                            sampled[0] += 1
-                            ck.sample({'schema': w['docs'][0][1].decode()[:3000], 'instance': xml[:600], 'expected': 'valid; reported types/defaults equal governing declarations', 'config': list(cfg), 'observed': 'no error; tree compared (%s)' % mode})
-            # disagreements seen in a batch: decide on the stand-alone document
-            if recheck:
-                rc = []
-                rmeta = {}
-                for n, (w, i, cfg, obs_valid, bcodes) in enumerate(recheck):
-                    ents = [('file:///xv/' + nn, d) for nn, d in w['docs']]
-                    cid = 'rc%d.s%d.i%d' % (n, w['si'], i)
-                    rc.append(mk_case(cid, cfg, ents, wrap_single(w['tns'], w['instances'][i][2]), dump=0))
-                    rmeta[cid] = (w, i, cfg, obs_valid, bcodes)
-                rrecs = core.run_cases(binary, rc, tag='c08r', shards=nproc)
-                for c in rc:
-                    w, i, cfg, batch_valid, bcodes = rmeta[c.id]
-                    f_, label, xml, rules, tree, feats = w['instances'][i]
-                    rec = rrecs.get(c.id)
-                    if rec is None or not rec.complete or rec.crash or rec.hang:
+            recheck = []        # (w, i, cfg, class seen in the batch)
+            confirmed = []      # (w, i, cfg, class, codes, positions) -- seen on a stand-alone document
+            rounds = 0
+            while cases and rounds < 12:
+                rounds += 1
+                recs = core.run_cases(binary, cases, tag='c08', shards=nproc)
+                nxt = []
+                for c in cases:
+                    w, idx, single, cfg = meta[c.id]
+                    rec = recs.get(c.id)
+                    if rec is None or not rec.complete or rec.crash or rec.hang or not rec.steps():
                         if rec is not None:
                             ck.crash_violation(rec, c, 'C08:')
                         continue
                     st = pc.parse_step(rec.steps()[0])
-                    if st.status != 'ok' or st.fatal():
-                        ck.violation('C08:fatal:single', 'fatal error / exception (%s)' % st.verdict(), {'case': c.to_json(), 'errs': st.errs[:4]})
+                    cfg_seen['%s/%s/%s/full=%s' % cfg] += 1
+                    if st.status != 'ok':
+                        ck.violation('C08:exception:%s' % (st.exc[0][0] if st.exc else '?'), 'exception escaped the parse of a well-formed instance of a valid schema',
+                                     {'case': c.to_json(), 'errs': st.errs[:4], 'exc': st.exc})
                         continue
-                    ecodes = sorted(set('%s%d' % (e[1], e[2]) for e in st.errs if e[0] == 'E'))
-                    obs_valid = not ecodes
+                    schema_err = [e for e in st.errs if e[0] in ('E', 'F') and not (e[5] or '').endswith('doc.xml')]
+                    if schema_err:
+                        ck.violation('C08:rejected-valid-schema:%s:code%d%s' % (schema_err[0][1], schema_err[0][2], ':full' if cfg[3] else ''),
+                                     'a generated (valid, UPA-clean) schema was reported as erroneous', {'case': c.to_json(), 'errs': schema_err[:4], 'tags': w['tags']})
+                        continue
+                    bad, fatal, posd = step_classes(st)
+                    for e in st.errs:
+                        if e[0] in ('E', 'F'):
+                            codes['%s:%s:%d' % (e[0], e[1], e[2])] += 1
+                    if not single and (1 in bad or (len(idx) + 2) in bad):
+                        ck.violation('C08:wrapper-error', 'error reported on the wrapper element of a batch', {'case': c.to_json(), 'errs': st.errs[:4]})
+                        continue
+                    trees = None
+                    for pos, i in enumerate(idx):
+                        f_, label, xml, rules, tree, feats = w['instances'][i]
+                        line = 1 if single else pos + 2
+                        if fatal is not None and line > fatal:
+                            # the parse stopped at a fatal error: the rest of the batch goes into a new document
+                            rest = idx[pos:]
+                            cid = c.id + '+'
+                            nxt.append(mk_case(cid, cfg, w['ents'], wrap_batch(w['tns'], [w['instances'][x][2] for x in rest]), dump=c.opt.get('dump', 1)))
+                            meta[cid] = (w, rest, False, cfg)
+                            break
+                        cls = 'F' if (fatal is not None and (single or line == fatal)) else 'E' if (bad if single else line in bad) else 'V'
+                        exp = 'E' if rules else 'V'
+                        ck.evaluations += 1
+                        if cls != exp:
+                            if single:
+                                confirmed.append((w, i, cfg, cls, sorted(set(x for v in bad.values() for x in v)), [x for v in posd.values() for x in v]))
+                            else:
+                                recheck.append((w, i, cfg, cls))
+                            continue
+                        fam[f_ + ('_valid' if exp == 'V' else '_invalid')] += 1
+                        for ru in rules:
+                            rules_seen[ru] += 1
+                        ck.add_distinct(core.h(w['si'], xml))
+                        if exp == 'V' and tree is not None and c.opt.get('dump', 1) != 0:
+                            if trees is None:
+                                tl = observed_trees(rec.steps()[0])
+                                trees = tl[0].kids if (not single and tl) else tl
+                            if pos >= len(trees):
+                                ck.violation('C08:report:structure', 'reported element structure differs from the instance', {'case': c.to_json()})
+                                continue
+                            mode = 'psvi' if (cfg[0] == 'psvi' and cfg[1] == 'sax2') else 'dom' if cfg[0] == 'psvi' else 'sax'
+                            diffs = []
+                            compare_tree(tree, trees[pos], mode, diffs)
+                            stats['report_compared_' + mode] += 1
+                            if diffs:
+                                d = diffs[0]
+                                ck.violation('C08:report:%s:%s:%s' % (d[0], mode, explain(feats) or 'plain'), 'valid instance: reported %s differs from the governing declaration: %r' % (d[0], d[1:]),
+                                             {'case': c.to_json(), 'instance': xml, 'schema': w['docs'][0][1].decode(), 'diffs': [list(map(str, x)) for x in diffs[:5]], 'tags': w['tags']})
+                            elif sampled[0] < 3 and f_ == 'tree':
+                                sampled[0] += 1
+                                ck.sample({'schema': w['docs'][0][1].decode()[:3000], 'instance': xml[:600], 'expected': 'valid; reported types/defaults equal governing declarations', 'config': list(cfg), 'observed': 'no error; tree compared (%s)' % mode})
+                cases = nxt
+            # disagreements seen in a batch: decide on the stand-alone document
+            if recheck:
+                rc = []
+                rmeta = {}
+                for n, (w, i, cfg, bcls) in enumerate(recheck):
+                    cid = 'rc%d.s%d.i%d' % (n, w['si'], i)
+                    rc.append(mk_case(cid, cfg, w['ents'], wrap_single(w['tns'], w['instances'][i][2]), dump=0))
+                    rmeta[cid] = (w, i, cfg, bcls)
+                rrecs = core.run_cases(binary, rc, tag='c08r', shards=nproc)
+                for c in rc:
+                    w, i, cfg, bcls = rmeta[c.id]
+                    f_, label, xml, rules, tree, feats = w['instances'][i]
+                    rec = rrecs.get(c.id)
+                    if rec is None or not rec.complete or rec.crash or rec.hang or not rec.steps():
+                        if rec is not None:
+                            ck.crash_violation(rec, c, 'C08:')
+                        continue
+                    st = pc.parse_step(rec.steps()[0])
+                    bad, fatal, posd = step_classes(st)
+                    cls = 'F' if (fatal is not None or st.status != 'ok') else 'E' if bad else 'V'
                     stats['batch_disagreements_rechecked'] += 1
-                    if obs_valid != batch_valid:
+                    if cls != bcls:
                         ck.violation('C08:context-dependent:%s:%s' % ('+'.join(rules) or 'valid', explain(feats) or 'plain'),
-                                     'verdict for the same element differs between stand-alone document and as a child of the wrapper (%s vs %s)' % (obs_valid, batch_valid),
+                                     'verdict class for the same element differs between stand-alone document and as a child of the wrapper (%s vs %s)' % (cls, bcls),
                                      {'case': c.to_json(), 'instance': xml, 'schema': w['docs'][0][1].decode()})
-                    if obs_valid != (not rules):
-                        confirmed.append((w, i, cfg, obs_valid, ecodes))
+                    if cls != ('E' if rules else 'V'):
+                        confirmed.append((w, i, cfg, cls, sorted(set(x for v in bad.values() for x in v)), [x for v in posd.values() for x in v]))
             # name and report confirmed disagreements (one shrink per signature; members share the key)
             groups = collections.OrderedDict()
-            for (w, i, cfg, obs_valid, ecodes) in confirmed:
+            for m in confirmed:
+                (w, i, cfg, cls, ecodes, pos) = m
                 f_, label, xml, rules, tree, feats = w['instances'][i]
-                sig = (obs_valid, rules, explain(feats), tuple(ecodes))
-                groups.setdefault(sig, []).append((w, i, cfg, obs_valid, ecodes))
+                groups.setdefault((cls, rules, explain(feats), tuple(ecodes)), []).append(m)
             reps = [g[0] for g in groups.values()]
-            items = [{'si': w['si'], 'idx': i, 'cfg': cfg, 'obs_valid': ov, 'docs': w['docs'], 'tns': w['tns'], 'codes': ec} for (w, i, cfg, ov, ec) in reps]
+            items = [{'si': w['si'], 'idx': i, 'cfg': cfg, 'obs': cls, 'docs': w['docs'], 'tns': w['tns'], 'codes': ec, 'pos': ps} for (w, i, cfg, cls, ec, ps) in reps]
             shrunk = shr.run(items) if items else []
-            for (sig, members), (el, res, scodes, ok) in zip(groups.items(), shrunk):
-                w, i, cfg, obs_valid, ecodes = members[0]
+            for (sig, members), (el, res, scodes, ok, pos) in zip(groups.items(), shrunk):
+                w, i, cfg, cls, ecodes, _p = members[0]
                 f_, label, xml, rules, tree, feats = w['instances'][i]
-                direction = 'accepted-invalid' if obs_valid else 'rejected-valid'
-                key = disagreement_key(direction, res, scodes)
-                ents = [('file:///xv/' + nn, d) for nn, d in w['docs']]
-                wc = mk_case('witness', cfg, ents, wrap_single(w['tns'], xg.ser(el)))
+                key = disagreement_key(cls, el, res, scodes, pos, w['tns'])
+                wc = mk_case('witness', cfg, w['ents'], wrap_single(w['tns'], xg.ser(el)))
+                names = {'V': 'valid', 'E': 'invalid (errors)', 'F': 'FATAL error'}
                 for _ in members:
-                    ck.violation(key, '%s: reference says %s (%s), parser says %s' % (direction, 'invalid' if obs_valid else 'valid', ','.join(sorted(set(res.errors))), 'valid' if obs_valid else 'invalid'),
+                    ck.violation(key, 'reference says %s (%s), parser says %s' % ('valid' if res.valid else 'invalid', ','.join(sorted(set(res.errors))), names[cls]),
                                  {'case': wc.to_json(), 'instance': xg.ser(el), 'original_instance': xml, 'schema': w['docs'][0][1].decode(), 'expected_errors': sorted(set(res.errors)),
-                                  'observed_codes': scodes, 'features': sorted(res.feats), 'shrunk': ok, 'tags': w['tags'], 'family': f_})
+                                  'observed_class': cls, 'observed_codes': scodes, 'features': sorted(res.feats), 'shrunk': ok, 'tags': w['tags'], 'family': f_})
             ck.note('schemas %d..%d done, evaluations=%d, disagreements=%d in %d classes' % (c0, c0 + len(works), ck.evaluations, len(confirmed), len(groups)))
     cov['nschemas'] = nschemas
 
@@ -898,6 +972,7 @@ def run(tier):
     ck.cov['error_codes_observed'] = dict(cov['codes'])
     ck.cov['skipped'] = dict(cov['skipped'])
     ck.cov['schemas'] = cov.get('nschemas', 0)
+    ck.cov['psvi_validity_flag_not_valid_on_error_free_instances'] = dict(PSVI_VALIDITY_OBS)
     if 'generated' in stages:
         need_rules = ['content-model-mismatch', 'child-not-allowed', 'required-attribute-missing', 'attribute-not-allowed', 'nil-not-empty', 'nil-not-nillable',
                       'xsitype-not-derived', 'abstract-element', 'text-in-element-only', 'attribute-value-invalid', 'simple-value-invalid', 'strict-wildcard-no-declaration']
@@ -936,6 +1011,7 @@ def replay(j):
         return 1
     exp = w.get('expected_errors')
     if exp is not None:
-        obs_valid = not any(e[0] in ('E', 'F') for e in st.errs)
-        return 1 if obs_valid != (not exp) else 0
+        cls = 'F' if (st.fatal() or st.status != 'ok') else 'E' if any(e[0] == 'E' for e in st.errs) else 'V'
+        print('expected class:', 'E' if exp else 'V', 'observed class:', cls)
+        return 1 if cls != ('E' if exp else 'V') else 0
     return 1
